@@ -119,6 +119,14 @@ def run_shard(ctx):
                 res.count('class:' + cls)
                 res.distinct.add(sep, text)
                 verdicts[sep] = judge(units, cls, p, amt, slot)
+            if cls == 'conv':
+                res.cover('ordered in-kind unit pair converted', '%s>%s' % (p[0], p[1]), len(same))
+            elif cls == 'cross':
+                res.cover('ordered cross-kind unit pair tried', '%s>%s' % (p[0], p[1]), len(cross))
+            elif cls in ('roundtrip', 'twostep'):
+                res.cover('ordered in-kind unit pair in round trips / two-step conversions', '%s>%s' % (p[0], p[1]), len(same))
+            else:
+                res.cover('ordered in-kind unit pair in arithmetic', '%s>%s' % (p[0], p[1]), len(same))
             bad = {s_: v for s_, v in verdicts.items() if v}
             if not bad:
                 res.count('ok', len(SEP_CONFIGS))
